@@ -633,3 +633,53 @@ TSLIR = "snaxc/ir/tsl/tiled_strided_layout.py"
 CASES["C05"] += [
     ("twin: F-28 repaired (search ends at a dynamic stride)", "twin", TSLIR, "                if stride_self.step is None or stride_self.bound is None:\n                    current_stride = None\n", "                if stride_self.step is None or stride_self.bound is None:\n                    return result\n", []),
 ]
+
+M2AF = "snaxc/transforms/convert_memref_to_arith.py"
+M2SF = "snaxc/transforms/memref_to_snax.py"
+CASTSF = "snaxc/transforms/realize_memref_casts.py"
+CASES["C10"] += [
+    ("subview: k-th dynamic offset paired with dimension k", "mutant", M2AF, "        for offset, index in zip(subview.offsets, dynamic_index_list):", "        for index, offset in enumerate(subview.offsets):", ["C10.subview-pointer"]),
+    ("subview: offset divided by the whole dimension's tile product", "mutant", M2AF, "for stride in source_type.layout.data.tstrides[index].strides[1:])", "for stride in source_type.layout.data.tstrides[index].strides)", ["C10.subview-pointer"]),
+    ("subview: innermost step instead of the outermost", "mutant", M2AF, "            stride = source_type.layout.data.tstrides[index].strides[0].step", "            stride = source_type.layout.data.tstrides[index].strides[-1].step", ["C10.subview-pointer"]),
+    ("twin: subview dimension list built with a loop", "twin", M2AF, "        dynamic_index_list = [\n            i for i, offset in enumerate(subview.static_offsets.get_values()) if offset == DYNAMIC_INDEX\n        ]\n", "        dynamic_index_list = []\n        for dim_no, static_offset in enumerate(subview.static_offsets.get_values()):\n            if static_offset == DYNAMIC_INDEX:\n                dynamic_index_list.append(dim_no)\n", []),
+]
+CASES["C11"] += [
+    ("alloc: dynamic sizes taken from the back", "mutant", M2SF, "                shape_ops.append(alloc_args.pop(0))", "                shape_ops.append(alloc_args.pop())", ["C11.dynamic-sizes"]),
+    ("alloc: dynamic operand consumed for every dimension", "mutant", M2SF, "            if shape.data == DYNAMIC_INDEX:\n                # dynamic op\n                shape_ops.append(alloc_args.pop(0))", "            if alloc_args:\n                # dynamic op\n                shape_ops.append(alloc_args.pop(0))", ["C11.dynamic-sizes"]),
+]
+CASES["C12"] += [
+    ("realised buffer: dim operand index counts dynamic dims", "mutant", CASTSF, "                index = arith.ConstantOp.from_int_and_width(i, builtin.IndexType())\n                dim_op = memref.DimOp.from_source_and_index(source_op.source, index.result)", "                index = arith.ConstantOp.from_int_and_width(len(dyn_operands), builtin.IndexType())\n                dim_op = memref.DimOp.from_source_and_index(source_op.source, index.result)", ["C12.alloc-dyn-sizes"]),
+    ("realised buffer: a size operand for every dimension", "mutant", CASTSF, "            if shapes[i] == builtin.DYNAMIC_INDEX:\n                ## create dim op", "            if shapes[i] != 1:\n                ## create dim op", ["C12.alloc-dyn-sizes"]),
+]
+CASES["C06"] += [
+    ("block level: all other users launches, setup behind uses[0]", "mutant", "snaxc/transforms/accfg_config_overlap.py", "@patch:seeded/C06-d/patch.diff", "", ["C06.block-guards"]),
+]
+
+# every kept seeded change (seeded/<id>/patch.diff, produced by sub-agents that saw only the property text) is also a mutant:
+# it must be reported by one of the rules recorded in seeded/RESULTS.json when the change was last run
+def _seeded_cases() -> None:
+    import json as _json
+    import pathlib as _pl
+
+    root = _pl.Path(__file__).resolve().parent.parent / "seeded"
+    res_f = root / "RESULTS.json"
+    if not res_f.exists():
+        return
+    res = _json.loads(res_f.read_text())
+    for sid, r in sorted(res.items()):
+        d = root / sid
+        if not (d / "patch.diff").exists() or not (d / "meta.json").exists() or not r.get("rules"):
+            continue
+        meta = _json.loads((d / "meta.json").read_text())
+        files = [f for f in meta.get("files", []) if f.endswith(".py")]
+        if not files:
+            continue
+        prop = r.get("property") or sid.split("-")[0]
+        name = f"seeded change {sid}"
+        CASES.setdefault(prop, [])
+        if any(c[0] == name or (c[3] == f"@patch:seeded/{sid}/patch.diff") for c in CASES[prop]):
+            continue
+        CASES[prop].append((name, "mutant", files[0], f"@patch:seeded/{sid}/patch.diff", "", list(r["rules"])))
+
+
+_seeded_cases()
